@@ -310,6 +310,16 @@ func checkC12(c *Ctx) {
 		}
 	}, "C07/ID/monotone/mem.Store.boxes:entries-persist", "C12/RACE/entries-persist", "memory store: mailbox entries are never deleted or replaced, so a message delivered while the scan removes the last expired message of that mailbox is not dropped with the entry")
 	r.Floor("C12/RACE/entries-persist", "borrowed obligations", nB, 1)
+	// the scan's removals cannot hang: nothing that blocks on the size enforcer (which itself
+	// takes mailbox locks) runs while a mailbox lock is held (decided by C09's no-blocking rule).
+	// A scan stuck in RemoveMessage never reaches its cancellation test, so Start and Join never
+	// return after shutdown either
+	nNB := c.borrow(func(c2 *Ctx) {
+		if pm2 := c2.pairing(); pm2.ok {
+			c2.c09NoBlock(pm2)
+		}
+	}, "C09/NOBLOCK", "C12/CANCEL/store-cannot-block", "no enforcer rendezvous, channel operation or lock re-acquisition is reachable while a store lock is held: a removal issued by the scan always returns")
+	r.Floor("C12/CANCEL/store-cannot-block", "borrowed obligations", nNB, 1)
 	// the scan's removal must not write back an index it loaded before a concurrent delivery
 	// committed (decided by C09's bucket-lock rule): the fresh message would vanish with it
 	// the scan removes by id what it tested as a snapshot: an id must never come to name another
